@@ -78,7 +78,10 @@ def gen_case(rng: random.Random) -> dict[str, Any]:
     return {"kind": "factory", "handler": rng.choice([None, True, False]), "handler_obj": rng.choice([None, None, "truthy", "falsy"]),
             "factory_via_shortcut": (via_sc := rng.random() < 0.4), "factory_from_nested": not via_sc and rng.random() < 0.4,
             "pre_res": rng.sample([1, 2, 3], rng.randint(0, 3)),
-            "specs": specs, "script": script, "exit_at": exit_at, "nested_owner": rng.random() < 0.4}
+            "specs": specs, "script": script, "exit_at": exit_at, "nested_owner": rng.random() < 0.4,
+            # a failure that is remembered and raised again: tasks failing in the same way raise one and the same
+            # exception object
+            "shared_exc": rng.random() < 0.3}
 
 
 class C09(Prop):
@@ -220,6 +223,9 @@ class C09(Prop):
         f = {"backend_" + case["backend"], "handler_" + str(case["handler"]), f"tasks_{len(case['specs'])}"}
         for e in impl["trace"]:
             f.add("label_" + e["l"][0])
+        ended = [e["l"][2] for e in impl["trace"] if e["l"][0] == "taskEnded" and e["l"][2] is not None]
+        if case.get("shared_exc") and len(ended) != len(set(ended)):
+            f.add("one_exception_object_raised_by_several_tasks")
         for s in case["script"]:
             if s["op"] == "spawn":
                 f.add("from_" + s["from"])
